@@ -40,17 +40,18 @@ def amap {α} (l : List (Nat × α)) (f : α → α) : List (Nat × α) :=
 
 /-! ## data -/
 
-inductive Flavour | V | I | A | TV | TI | TA
+/-- `AV`/`TAV`: `signal<void(int)>::accumulated<Acc>` — the `slot_iterator_buf<…, void>` specialisation -/
+inductive Flavour | V | I | A | TV | TI | TA | AV | TAV
 deriving Repr, DecidableEq, Inhabited
 
 def Flavour.isVoid : Flavour → Bool
-  | .V | .TV => true
+  | .V | .TV | .AV | .TAV => true
   | _ => false
 def Flavour.isTrackable : Flavour → Bool
-  | .TV | .TI | .TA => true
+  | .TV | .TI | .TA | .TAV => true
   | _ => false
 def Flavour.isAcc : Flavour → Bool
-  | .A | .TA => true
+  | .A | .TA | .AV | .TAV => true
   | _ => false
 
 /-- a functor value as stored in a `typed_slot_rep` -/
